@@ -84,12 +84,13 @@ macro_rules! roundtrip {
             let w = walk(&buf, len, $steps);
             assert!(w.is_some(), "the encoding is a well-formed CBOR item: every declared container length is met");
             assert!(w == Some(len), "the encoding is exactly one item: the strict walker ends where the encoder stopped");
-            let mut d = Decoder::new(&buf[..len]);
+            // decoded from the whole zero-padded buffer (a slice of symbolic length costs 5x): stopping exactly at `len` is asserted below
+            let mut d = Decoder::new(&buf[..]);
             let back: Result<$t, _> = d.decode();
             match &back {
                 Ok(m2) => {
                     assert!($eq(&msg, m2), "decoding the encoding returns an equal value");
-                    assert!(d.position() == len, "the decoder consumes the whole encoding");
+                    assert!(d.position() == len, "the decoder stops exactly at the end of the encoding");
                 }
                 Err(_) => assert!(false, "the encoding decodes"),
             }
